@@ -29,12 +29,6 @@ def isBoolLit : Expr → Bool
   | .bool .. => true
   | _ => false
 
-/-- the names in scope behind a statement -/
-def defsOf (B : List String) : Stmt → List String
-  | .assign _ tok [.ident _ x] _ => if tok == tDefine then x :: B else B
-  | .declValue _ _ [(_, [(_, x)], _)] => x :: B
-  | _ => B
-
 /-- the condition of an `if` is the literal `true` (the compiler then emits the body only) -/
 def isTrueLit : Expr → Bool
   | .bool _ true => true
@@ -48,11 +42,42 @@ def isFalseLit : Expr → Bool
 /-- conditions of `if`: the literals `true` / `false`, or an expression of the fragment that is not a boolean literal -/
 def condF (B : List String) (c : Expr) : Bool := isTrueLit c || isFalseLit c || (ExprF (bnd B) c && !isBoolLit c)
 
-/-- `var` declarations of the slice: one specification with one name, with a value or without -/
-def declF (B : List String) (tok : Nat) : List (Option Nat × List (Pos × String) × List (Option Expr)) → Bool
-  | [(_, [(_, x)], [some e])] => ExprF (bnd B) e && tok == tVar && x != "_"
-  | [(_, [(_, x)], [])] => tok == tVar && x != "_"
+/-- one specification of a `var` declaration -/
+abbrev Spec := Option Nat × List (Pos × String) × List (Option Expr)
+
+def specF (B : List String) : Spec → Bool
+  | (_, [(_, x)], [some e]) => ExprF (bnd B) e && x != "_"
+  | (_, [(_, x)], []) => x != "_"
   | _ => false
+
+def defsSpec (B : List String) : Spec → List String
+  | (_, [(_, x)], _) => x :: B
+  | _ => B
+
+def specsF : List String → List Spec → Bool
+  | _, [] => true
+  | B, sp :: r => specF B sp && specsF (defsSpec B sp) r
+
+def defsSpecs : List String → List Spec → List String
+  | B, [] => B
+  | B, sp :: r => defsSpecs (defsSpec B sp) r
+
+def needSpec : Spec → Nat
+  | (_, _, [some e]) => need e + 1
+  | _ => 2
+
+def needSpecs : List Spec → Nat
+  | [] => 0
+  | sp :: r => max (needSpec sp) (needSpecs r)
+
+/-- `var` declarations of the slice: a non-empty group of specifications, each with one name, with a value or without -/
+def declF (B : List String) (tok : Nat) (specs : List Spec) : Bool := tok == tVar && !specs.isEmpty && specsF B specs
+
+/-- the names in scope behind a statement -/
+def defsOf (B : List String) : Stmt → List String
+  | .assign _ tok [.ident _ x] _ => if tok == tDefine then x :: B else B
+  | .declValue _ _ specs => defsSpecs B specs
+  | _ => B
 
 /-- `x++` / `x--` on a name in scope -/
 def incF (B : List String) : Expr → Bool
@@ -60,7 +85,7 @@ def incF (B : List String) : Expr → Bool
   | _ => false
 
 mutual
-/-- statements of the slice: `e;`, `x := e`, `var x = e`, `var x`, `x = e`, `x op= e`, `x++`, `x--` (uncaptured locals),
+/-- statements of the slice: `e;`, `x := e`, `var x = e`, `var x`, `var ( … )` groups of them, `x = e`, `x op= e`, `x++`, `x--` (uncaptured locals),
     blocks, `if c { … }`, `if c { … } else { … }`, `else if` (also with the literal `true` as condition), `if init; c { … }` (init a statement of the slice), `return`,
     `return e`, the empty statement -/
 def StmtF : List String → Stmt → Bool
@@ -103,8 +128,7 @@ mutual
 def needS : Stmt → Nat
   | .expr _ e => need e
   | .assign _ _ _ [r] => need r + 1
-  | .declValue _ _ [(_, _, [some e])] => need e + 1
-  | .declValue _ _ [(_, _, [])] => 2
+  | .declValue _ _ specs => needSpecs specs
   | .incdec _ _ _ _ => 2
   | .block _ body => needL body
   | .if_ _ (some i) c _ body none => max (needS i) (max (need c) (needL body))
